@@ -21,8 +21,10 @@ from mc import tunables
 
 MAX_TOLERATED = tunables.watchdog_max_failures()   # "the tolerated maximum": bellows' MAX_WATCHDOG_FAILURES, not fixed by the property
 PERIOD_SMALL = 3
-OUTCOMES_V4 = ["ok", "silent", "stopped", "invalid", "reconnect"]
-OUTCOMES = ["ok", "silent-counters", "silent-buffers", "stopped", "invalid", "ok-nobuf", "reconnect"]   # ok-nobuf: counters read, the free-buffer value is refused (a successful feed)
+OUTCOMES_V4 = ["ok", "silent", "stopped", "invalid", "reconnect", "late"]
+OUTCOMES = ["ok", "silent-counters", "silent-buffers", "stopped", "invalid", "ok-nobuf", "reconnect", "late"]
+# "late": the keep-alive is answered only after the host's command time-out (the reply, under the same sequence number, arrives
+# between two feeds): the feed has failed by time-out; a late reply is not a successful feed.   # ok-nobuf: counters read, the free-buffer value is refused (a successful feed)
 # "reconnect" is not a keep-alive outcome: ControllerApplication.connect() runs again on the same application object between two
 # feeds (what zigpy does after a restart request).  It is not a successful feed, so the run of failures continues across it.
 INVALID = ("__raw__", 0x58, b"\x36")     # the NCP answers the keep-alive with invalidCommand (reason: unsupported) -- an EZSP error
@@ -44,6 +46,7 @@ class World:
         self.t = t
         self.mute = set()
         self.install(self.ncp)
+        self.ezsp.add_callback(self.app.ezsp_callback_handler)     # (what start_network() does)
         # reference state
         self.run = 0        # consecutive failures
         self.ordinal = 0    # feeds so far
@@ -94,6 +97,7 @@ class World:
         if not task.done() or task.exception() is not None or self.app._ezsp is not ezsp:
             raise explore.InternalError(f"C19 harness: connect() on the simulated stack did not complete: {task!r}")
         self.ezsp, self.gw, self.ncp = ezsp, gw, ncp
+        ezsp.add_callback(self.app.ezsp_callback_handler)
         # the phase of the periodic read-and-clear may or may not restart with the new connection (not the property's business)
         self.phases = self.phases | {0}
 
@@ -109,6 +113,9 @@ class World:
             return self.reconnect()
         self.viol = []
         self.mute = set()
+        late = outcome == "late"
+        if late:
+            outcome = "silent" if self.version == 4 else "silent-counters"
         if outcome == "silent":
             self.mute = {"nop"}
         elif outcome == "silent-counters":
@@ -195,6 +202,16 @@ class World:
             dt = self.loop.time() - t0
             if abs(dt - CMD_TIMEOUT) > 1e-6:
                 self.viol.append(f"unanswered keep-alive ended after {dt:.3f}s, expected the {CMD_TIMEOUT} s command timeout")
+        if late and len(self.ncp.log) > n0:
+            # now the NCP's answer to that very request arrives
+            from mc.env import ezspenv
+
+            _, name, _, raw = self.ncp.log[n0]
+            seq, fid, _ = ezspenv.dec_hdr(self.ncp.framing, raw)
+            rx = self.ncp.cls.COMMANDS[name][2]
+            vals = [] if name == "nop" else [[k % 7 for k in range(len(list(t.EmberCounterType)))]]
+            self.ncp.deliver(ezspenv.enc_response_hdr(self.ncp.framing, seq, fid) + ezspenv.encode_values(rx, vals))
+            self.loop.settle()
 
     def renegotiate(self):
         """What a reset + version negotiation on the same EZSP object does to the protocol handler (EZSP.reset installs the legacy
@@ -281,7 +298,7 @@ def seq_job(args):
     import bellows.zigbee.application as A
 
     shipped_period = A.EZSP_COUNTERS_CLEAR_IN_WATCHDOG_PERIODS
-    depth = 6 if tier == "quick" else 7
+    depth = 5 if tier == "quick" else 7
     viol = []
     out = {"v": v, "states": 0, "transitions": 0, "stateless": 0, "sigs": set(), "samples": [], "viol": viol, "internal": None}
     outs = OUTCOMES_V4 if v == 4 else OUTCOMES
@@ -356,7 +373,7 @@ def seq_job(args):
 def main(tier: str) -> int:
     rep = report.Report("C19", tier, "model_checking")
     versions = [4, 8, 14] if tier == "quick" else [4, 5, 7, 8, 9, 13, 14]
-    depth = 6 if tier == "quick" else 7
+    depth = 5 if tier == "quick" else 7
     graphs = sorted(explore.pool().imap_unordered(graph_job, [(v, tier) for v in versions], chunksize=1), key=lambda r: r["v"])
     jobs = [(g["v"], tier, first, g["edges"]) for g in graphs if not g["internal"]
             for first in range(len(OUTCOMES_V4 if g["v"] == 4 else OUTCOMES))]
